@@ -98,7 +98,7 @@ def _scalar(sd, t, raw):
         x = float(raw)
         return x, gen.f2w64(x)
     if k == "str":
-        return raw, {"s": [ord(c) for c in raw]}
+        return raw, {"s": list(raw.encode("utf-8"))}
     if k == "Enum":
         e = next(e for e in sd["enums"] if e["name"] == t["name"])
         v = next(x["value"] for x in e["enumeration"] if x["name"] == raw)
